@@ -59,3 +59,17 @@ Proof.
   unfold close_varargs. rewrite H3. apply Hk.
 Qed.
 Print Assumptions C09_return_annotation_irrelevant.
+
+(* under the default resolution of validate_signature (derive with sig = true) nothing is
+   coerced: an accepted argument already is a value of the annotated type, and the body is
+   handed an identical value (for containers as Python builds them: no two equal set members
+   or dict keys). PARTIAL: annotations without record classes; record classes are tied by the
+   strict family of the differential run. *)
+From KV Require Import Model.Derive Proofs.DeriveP.
+Theorem C09_strict :
+  forall (E : env) a, plain a = true ->
+    forall v, derive true a = Ok v ->
+    forall fuel x w, run E Sync fuel v x = OValid w ->
+                     has_type a x = true /\ (proper x = true -> w = x).
+Proof. exact derive_strict. Qed.
+Print Assumptions C09_strict.
